@@ -187,6 +187,78 @@ fn run_case(dir: &Path, image: &[u8], allow: bool, dest_exists: bool, interfere:
     run_case_with(dir, image, allow, dest_exists, interfere, false)
 }
 
+/// Third interference kind: somebody renames a file of their own (an empty but valid v3
+/// device) over migrate()'s temporary sibling at the given point. migrate() keeps its
+/// descriptor to the original inode; what it publishes must be what it verified.
+fn run_case_temp_replaced(dir: &Path, image: &[u8], point: &'static str) -> Outcome {
+    let mut problems = Vec::new();
+    let _ = std::fs::remove_dir_all(dir);
+    std::fs::create_dir_all(dir).unwrap();
+    let src = dir.join("source.feox");
+    let dst = dir.join("dest.feox");
+    std::fs::write(&src, image).unwrap();
+    let decoy_bytes = l::empty_device(3, (image.len() / BLOCK) as u64 + 4, T0 / crate::sut::SEC);
+    let sess = Session::new();
+    sess.clock.store(T0, Ordering::SeqCst);
+    sess.set_flag(crate::session::F_NO_URING, true);
+    let replaced = std::sync::Arc::new(std::sync::atomic::AtomicBool::new(false));
+    {
+        let (dst2, dir2, replaced2) = (dst.clone(), dir.to_path_buf(), replaced.clone());
+        *sess.point_cb.lock() = Some(Box::new(move |name| {
+            if name == point && !replaced2.load(Ordering::SeqCst) {
+                if let Some(tmp) = temp_siblings(&dst2).into_iter().next() {
+                    let decoy = dir2.join("decoy.bin");
+                    if std::fs::write(&decoy, &decoy_bytes).is_ok() && std::fs::rename(&decoy, &tmp).is_ok() {
+                        replaced2.store(true, Ordering::SeqCst);
+                    }
+                }
+            }
+        }));
+    }
+    sess.install();
+    let opts = feoxdb::MigrationOptions::new(&src, &dst).verif_hash_bits(4);
+    let _call = crate::util::in_call("migrate()");
+    let result = catch_unwind(AssertUnwindSafe(|| feoxdb::migrate(opts)));
+    drop(_call);
+    Session::uninstall();
+    let result = match result {
+        Ok(r) => r,
+        Err(p) => {
+            problems.push(format!("C15: migrate() panicked: {}", crate::sut::panic_text(p)));
+            return Outcome { problems, migrated_ok: false };
+        }
+    };
+    if !replaced.load(Ordering::SeqCst) {
+        return Outcome { problems, migrated_ok: result.is_ok() };
+    }
+    match result {
+        Err(_) => {
+            if dst.exists() {
+                problems.push(format!("C15: migrate() failed after its temporary file was replaced (at {point}) but left a file at the destination path"));
+            }
+        }
+        Ok(report) => {
+            // success is only acceptable if what was published is what was verified
+            let copy = dir.join("source-copy.feox");
+            std::fs::write(&copy, image).unwrap();
+            let want = open_contents(&copy, false, false);
+            let got = open_contents(&dst, false, false);
+            match (&want, &got) {
+                (Ok(w), Ok(g)) if w == g && report.records == w.len() as u64 => {}
+                (Ok(w), Ok(g)) => problems.push(format!(
+                    "C15: migrate() returned Ok({} records) after its temporary file was replaced by another file (at {point}), and the published destination holds {:?} while a recovery of the source yields {:?}: an unverified file was published",
+                    report.records,
+                    brief(g),
+                    brief(w)
+                )),
+                (_, Err(e)) => problems.push(format!("C15: migrate() returned Ok after its temporary file was replaced (at {point}) but the destination cannot be read: {e}")),
+                (Err(e), _) => problems.push(format!("C15: source recovery failed: {e}")),
+            }
+        }
+    }
+    Outcome { problems, migrated_ok: false }
+}
+
 /// `dest_appears`: instead of modifying the source, the interfering party creates a file
 /// of its own at the destination path (without overwriting anything) at that point.
 fn run_case_with(dir: &Path, image: &[u8], allow: bool, dest_exists: bool, interfere: Option<&'static str>, dest_appears: bool) -> Outcome {
@@ -474,6 +546,12 @@ pub fn check(tier: &str, budget_s: f64, report: &mut Report) {
             evals.fetch_add(1, Ordering::Relaxed);
             for pr in o.problems {
                 bad.lock().unwrap().push((format!("{name} destination path taken by another party at {p}"), pr));
+            }
+            let o = run_case_temp_replaced(&dir, img, p);
+            interfered += 1;
+            evals.fetch_add(1, Ordering::Relaxed);
+            for pr in o.problems {
+                bad.lock().unwrap().push((format!("{name} temporary file replaced by another party at {p}"), pr));
             }
         }
     }
